@@ -74,6 +74,7 @@ package pe
 // expected descriptor is mapped to a credential with the same raw form - the result is the expected map.
 //@ func (PresentationSubmission).Validate
 //@   prop C12 C19
+//@   assume-benign
 //@   loop 1 invariant !did(call credential.PresentationSigner #1) || isNilIface(ret(call credential.PresentationSigner #1).1)
 //@   loop 1 invariant len(submissionBuilder.wallets) == len(submissionBuilder.holders) && same(submissionBuilder.presentationDefinition, definition)
 //@   loop 2 invariant true
